@@ -294,11 +294,15 @@ def model_expr(c, mode):
 
 def oracle_expr(c, mode, obs):
     if c['kind'] == 'code':
+        if isinstance(obs, int) or obs[0] != 'tuple':
+            return 'false'
         return 'holds_code %s %s' % (c['name'], to_coq(obs))
     if c['kind'] == 'fromid':
         return 'holds_fromid %s %s' % (z(c['id']), to_coq(obs))
     if c['kind'] == 'raw':
         return None
+    if isinstance(obs, int) or obs[0] != 'tuple' or len(obs[1]) != 3:
+        return 'false'          # Crash / Hang / unparsable: the client showed nothing sensible
     out = obs[1][2]
     return 'holds_event %s (%s) %s' % (z(c['c0']), event_term(c), to_coq(out))
 
